@@ -2,6 +2,8 @@
 from __future__ import annotations
 
 import collections
+import copy
+import errno
 import io
 import itertools
 import os
@@ -15,7 +17,7 @@ import tempfile
 import vcommon
 from vcommon import Prop
 import gen_c09
-from gen_c09 import SHORTCUTS, POLICIES, argv_of, build_tree, content
+from gen_c09 import SHORTCUTS, POLICIES, argv_of, build_tree, content, documented_safe
 
 TOP_FN = {"tidy-imports": "fix_unused_and_missing_imports",
           "reformat-imports": "reformat_import_statements",
@@ -36,8 +38,17 @@ def _text_of(x):
     return str(x)
 
 
-def invoke(tool, argv, stdin_text, cwd):
+RW_EXC = {"RuntimeError": RuntimeError, "MemoryError": MemoryError, "RecursionError": RecursionError,
+          "SystemExit": SystemExit, "KeyboardInterrupt": KeyboardInterrupt}
+
+
+def invoke(tool, argv, stdin_text, cwd, write_faults=None, rw_faults=None):
     """Run $VERIF_REPO/bin/<tool> as __main__ inside this process.
+
+    Fault hooks (from outside, nothing in /repo): `write_faults` {absolute path: errno name} makes
+    `atomic_write_file(path, ...)` as seen by _cmdline raise that OSError before anything is created;
+    `rw_faults` {input text: exception name} makes the tool's rewriter raise on that text.  Every call of
+    atomic_write_file is recorded with its outcome.
 
     fd 0 is /dev/null (so os.isatty(0) is False, like a pipe), fd 1/2 go to a temp file (external
     commands write there), Python-level stdin/stdout/stderr are StringIO objects.
@@ -49,9 +60,42 @@ def invoke(tool, argv, stdin_text, cwd):
     orig_fn = getattr(I, fn_name)
     calls, depth = [], [0]
 
+    write_faults = write_faults or {}
+    rw_faults = rw_faults or {}
+    writes = []
+    import builtins
+    import pyflyby._cmdline as CL
+    import pyflyby._file as FL
+    orig_aw = getattr(CL, "atomic_write_file", None)
+    had_open = "open" in FL.__dict__
+
+    def fopen(file, mode="r", *a, **k):
+        # fault injection below atomic_write_file: creating '<target>.tmp.<pid>' (or the target) fails
+        p = str(file)
+        if any(ch in mode for ch in "wax+"):
+            for tgt, kname in write_faults.items():
+                if p == tgt or p.startswith(tgt + ".tmp."):
+                    writes.append([tgt, "fault:" + kname])
+                    raise OSError(getattr(errno, kname), os.strerror(getattr(errno, kname)), p)
+        return builtins.open(file, mode, *a, **k)
+
+    def aw(filename, data):
+        p = str(filename)
+        try:
+            r = orig_aw(filename, data)
+        except BaseException as e:
+            if not (writes and writes[-1][0] == p and writes[-1][1]):
+                writes.append([p, type(e).__name__])
+            raise
+        writes.append([p, None])
+        return r
+
     def wrapper(*a, **k):
         if depth[0] == 0:
-            calls.append(_text_of(a[0]) if a else None)
+            t = _text_of(a[0]) if a else None
+            calls.append(t)
+            if t in rw_faults:
+                raise RW_EXC[rw_faults[t]]("injected rewriter fault")
         depth[0] += 1
         try:
             return orig_fn(*a, **k)
@@ -71,6 +115,10 @@ def invoke(tool, argv, stdin_text, cwd):
         pass
     try:
         setattr(I, fn_name, wrapper)
+        if orig_aw is not None:
+            CL.atomic_write_file = aw
+        if write_faults:
+            FL.open = fopen
         os.dup2(devnull, 0)
         os.dup2(tmp.fileno(), 1)
         os.dup2(tmp.fileno(), 2)
@@ -94,6 +142,10 @@ def invoke(tool, argv, stdin_text, cwd):
             res["crash"] = type(e).__name__ + ": " + str(e)[:200]
     finally:
         setattr(I, fn_name, orig_fn)
+        if orig_aw is not None:
+            CL.atomic_write_file = orig_aw
+        if write_faults and not had_open and "open" in FL.__dict__:
+            del FL.open
         sys.argv, sys.stdin, sys.stdout, sys.stderr = saved[:4]
         os.dup2(fds[0], 0)
         os.dup2(fds[1], 1)
@@ -114,7 +166,7 @@ def invoke(tool, argv, stdin_text, cwd):
     tmp.seek(0)
     fdout = tmp.read().decode("utf-8", "replace")
     tmp.close()
-    res.update(out=out.getvalue(), err=err.getvalue(), rewrites=calls, fdout_len=len(fdout), fdout=fdout[:2000])
+    res.update(out=out.getvalue(), err=err.getvalue(), rewrites=calls, writes=writes, fdout_len=len(fdout), fdout=fdout[:2000])
     return res
 
 
@@ -147,10 +199,21 @@ def snap(root, n):
     if stat.S_ISLNK(st.st_mode):
         return ["link", os.readlink(p)]
     if stat.S_ISDIR(st.st_mode):
-        return ["dir"]
+        return ["dir", None, None, stat.S_IMODE(st.st_mode)]
+    if not stat.S_ISREG(st.st_mode):
+        return ["special", None, None, stat.S_IMODE(st.st_mode)]
     with open(p, "rb") as f:
         data = f.read().decode("utf-8", "surrogateescape")
-    return ["file", data, st.st_ino]
+    return ["file", data, st.st_ino, stat.S_IMODE(st.st_mode)]
+
+
+def walk_names(root):
+    """Every entry below root (relative names), whatever it is called."""
+    out = []
+    for dp, dns, fns in os.walk(root):
+        for f in fns + dns:
+            out.append(rel(root, os.path.join(dp, f)))
+    return out
 
 
 def rel(root, p):
@@ -173,6 +236,8 @@ def expand_real(root, args):
                 continue
             n = d + "/" + e
             p = os.path.join(root, n)
+            if not documented_safe(p):
+                continue        # Filename.list(ignore_unsafe=True): names outside the whitelist are skipped
             if os.path.isfile(p):
                 if e.endswith(".py"):
                     out.append(n)
@@ -245,6 +310,9 @@ class C09(Prop):
         "Pfb.C09.C09_follow_links_kept_partial",
         "Pfb.C09.C09_isolation_partial",
         "Pfb.C09.C09_rewriter_once",
+        "Pfb.C09.C09_unwritable_untouched",
+        "Pfb.C09.safeName_shell_inert",
+        "Pfb.C09.C09_unsafe_refused",
         "Pfb.C09.parse_fixed_policy",
         "Pfb.C09.C09_skip_error_untouched_fixed",
         "Pfb.C09.C09_links_kept_fixed",
@@ -278,6 +346,8 @@ class C09(Prop):
         ("lib/python/pyflyby/_cmdline.py", "symlink_replace"),
         ("lib/python/pyflyby/_file.py", "expand_py_files_from_args"),
         ("lib/python/pyflyby/_file.py", "atomic_write_file"),
+        ("lib/python/pyflyby/_file.py", "Filename._from_filename"),
+        ("lib/python/pyflyby/_file.py", "Filename.list"),
         ("bin/tidy-imports", None),
         ("bin/reformat-imports", None),
         ("bin/transform-imports", None),
@@ -293,16 +363,29 @@ class C09(Prop):
             "empty), symlinks (target listed or not, chains), dangling symlinks, missing names, directories (with .py, non-.py, "
             "hidden, __pycache__, nested, symlink children), repeated arguments; 0-6 answers; plus a sampled (quick) / full "
             "(thorough) small scope: every action list of length <= 3 x policy placement x 4 file sequences, every file sequence "
-            "of length <= 3 over 7 kinds x 12 configurations x policies.  Non-trivial: at least one file is processed or the exit "
+            "of length <= 3 over 7 kinds x 12 configurations x policies; round 3: every character of a hostile file-name alphabet "
+            "(all ASCII punctuation, space/tab/newline/CR/DEL/control, non-ASCII incl. astral and bidi) in five name shapes, plus "
+            "leading '-', '~' components, brace/comma names and 250-character names, as argument or directory child, under 8 action "
+            "configurations (DIFF, PRINT, EXECUTE, IFCHANGED+DIFF, REPLACE ...), next to a precious file the shell redirection would "
+            "hit; one failing file at every position of 2-5-file runs failing in 15 ways (temp name > NAME_MAX, injected EACCES/"
+            "EROFS/ENOSPC/EDQUOT below atomic_write_file, rewriter raising RuntimeError/MemoryError/RecursionError/SystemExit/"
+            "KeyboardInterrupt, unparsable, undecodable, missing, dangling) x 8 action configurations; a probe of Filename's "
+            "whitelist on 400 names against the model's safeName.  The oracle snapshots the WHOLE scratch tree (contents, link "
+            "targets, modes, created/removed entries) and, when a failure occurred, re-runs the command without the failing "
+            "file(s) on a fresh tree and demands the same result for every other file.  Non-trivial: at least one file is processed or the exit "
             "status is non-zero; distinct by the whole case")
     trusted_base = ["the rewriter is a parameter of the model; for K its graph on the texts of a case is taken from the real tool "
                     "(`<tool> file`, default PRINT) and closed under re-application",
                     "modelled, not verified: the kernel's path resolution (symlinks followed up to 40 links, realpath), "
-                    "atomic_write_file as 'target becomes a new regular file with the output' (its own failure modes are C08), "
+                    "atomic_write_file as 'target becomes a new regular file with the output, or OSError and nothing written' "
+                    "(Env.writable; what a failed rename leaves behind is C08), "
                     "optparse's dispatch of callbacks in command-line order",
                     "which set_actions variant the model uses (pinned tree / tree with fixes/C09-D4.diff) is chosen by one probe "
                     "invocation at setup (or VERIF_C09_KEEP); everything else is compared"]
-    assumptions = ["DIFF / EXECUTE commands do not touch the argument files (the harness uses pyflyby-diff, true, echo)",
+    assumptions = ["DIFF / EXECUTE commands do not touch the argument files (the harness uses pyflyby-diff, true, echo); that the "
+                   "*file names* cannot make them do so is not assumed: names outside Filename's whitelist are refused "
+                   "(C09_unsafe_refused, safeName_shell_inert) and the oracle watches the whole tree",
+                   "/bin/sh does not brace-expand ('{', '}', ',' are in the whitelist; dash here)",
                    "stdin/stdout are not ttys (default action PRINT); --debug/--verbose (documented fail-fast) are not used",
                    "text-mode reading: CRLF files, hard links and symlinked directories are outside the modelled tree shapes",
                    "KeyboardInterrupt at a QUERY prompt (SystemExit(1)) is not modelled"]
@@ -395,12 +478,28 @@ class C09(Prop):
                         tree, args = gen_c09.tree_of_kinds(list(seq), "tidy-imports")
                         B.append(dict(tool="tidy-imports", extra=[], opts=opts, tree=tree, args=args,
                                       answers=["y", "n", "y", "y"], after=idx % 2))
+        H = gen_c09.hostile_exhaustive(tier, rng)
+        Fc = gen_c09.fault_exhaustive(tier, rng)
+        P = [gen_c09.safename_probe()]
         if tier == "thorough":
-            return A + B
-        return rng.sample(A, 90) + rng.sample(B, 90)
+            return P + H + Fc + A + B
+        return P + H + Fc + rng.sample(A, 90) + rng.sample(B, 90)
 
     # -- implementation ------------------------------------------------------
     def run_impl(self, case):
+        if case.get("probe") == "safename":
+            from pyflyby._file import Filename, UnsafeFilenameError
+            res = []
+            for n in case["names"]:
+                try:
+                    # what the tools do with an (already absolute) argument
+                    Filename(n)
+                    res.append(True)
+                except UnsafeFilenameError:
+                    res.append(False)
+                except Exception as e:
+                    res.append("exc:" + type(e).__name__)
+            return dict(probe=res)
         scratch, own = self._scratch_dir()
         base = tempfile.mkdtemp(prefix="case.", dir=scratch)
         try:
@@ -408,7 +507,7 @@ class C09(Prop):
             os.mkdir(root)
             tree, args = case["tree"], case["args"]
             build_tree(root, tree)
-            names = set(tree) | set(args)
+            names = set(tree) | set(args) | set(walk_names(root))
             facts = {}
             for n in sorted(names):
                 p = os.path.join(root, n)
@@ -435,7 +534,15 @@ class C09(Prop):
                     if o is not None and o not in ref:
                         nxt.append(o)
                 todo, depth = nxt, depth + 1
-            argv = [a if a.startswith("-") else os.path.join(root, a) for a in argv_of(case)]
+            argv = argv_of(case, root)
+            faults = case.get("faults") or {}
+            write_faults = {os.path.join(root, n): k for n, k in (faults.get("write") or {}).items()}
+            rw_faults = {}
+            for n, k in (faults.get("rw") or {}).items():
+                if tree.get(n, [""])[0] == "file":
+                    rw_faults[tree[n][1]] = k
+                    if k not in ("SystemExit", "KeyboardInterrupt"):
+                        ref[tree[n][1]] = None      # on this text the rewriter (with the hook) raises an Exception
             stdin_text = "".join(a + "\n" for a in case.get("answers", []))
             # keep every original inode allocated during the run, so that a re-created file can never get the
             # number of the inode it replaced (observed with two REPLACEs of one file)
@@ -444,20 +551,22 @@ class C09(Prop):
                 if before[n][0] == "file":
                     pins.append(os.open(os.path.join(root, n), os.O_RDONLY))
             try:
-                r = invoke(case["tool"], argv, stdin_text, root)
+                r = invoke(case["tool"], argv, stdin_text, root, write_faults, rw_faults)
+                listing = walk_names(root)
+                for n in listing:
+                    if n not in before:
+                        before[n] = ["absent"]
+                names = sorted(set(names) | set(listing))
                 after = {n: snap(root, n) for n in names}
             finally:
                 for fd in pins:
                     os.close(fd)
-            listing = []
-            for dp, dns, fns in os.walk(root):
-                for f in fns + dns:
-                    listing.append(rel(root, os.path.join(dp, f)))
-            stray = sorted(set(listing) - set(names))
+            stray = sorted(n for n in listing if before[n][0] == "absent")
             obs = dict(root=root, names=names, facts=facts, expanded=expanded, before=before, after=after,
                        ref=[[k, v] for k, v in sorted(ref.items(), key=lambda kv: kv[0])], stray=stray,
                        rc=r["rc"], msg=r["msg"], crash=r["crash"], out=r["out"], err=r["err"],
-                       rewrites=r["rewrites"], fdout_len=r["fdout_len"], fdout=r["fdout"][:2000])
+                       rewrites=r["rewrites"], fdout_len=r["fdout_len"], fdout=r["fdout"][:2000],
+                       writes=[[rel(root, w[0]), w[1]] for w in r["writes"]], pid=os.getpid())
             return obs
         finally:
             shutil.rmtree(base, ignore_errors=True)
@@ -465,7 +574,26 @@ class C09(Prop):
                 shutil.rmtree(scratch, ignore_errors=True)
 
     # -- oracle --------------------------------------------------------------
+    def _run_plain(self, case):
+        """The same command on a fresh copy of the tree, no fault hooks: whole-tree snapshot afterwards + stdout."""
+        scratch, own = self._scratch_dir()
+        base = tempfile.mkdtemp(prefix="base.", dir=scratch)
+        try:
+            root = os.path.realpath(os.path.join(base, "w"))
+            os.mkdir(root)
+            build_tree(root, case["tree"])
+            stdin_text = "".join(a + "\n" for a in case.get("answers", []))
+            r = invoke(case["tool"], argv_of(case, root), stdin_text, root)
+            names = sorted(set(case["tree"]) | set(walk_names(root)))
+            return dict(after={n: snap(root, n) for n in names}, out=r["out"], rc=r["rc"])
+        finally:
+            shutil.rmtree(base, ignore_errors=True)
+            if own:
+                shutil.rmtree(scratch, ignore_errors=True)
+
     def oracle(self, case, obs):
+        if "probe" in obs:
+            return []
         fails = []
         acts, policy, rejected = configured(case)
         before, after, facts, E = obs["before"], obs["after"], obs["facts"], obs["expanded"]
@@ -489,9 +617,27 @@ class C09(Prop):
             d.update(kw)
             fails.append(d)
 
+        # names outside Filename's whitelist: the documented clean behaviour is to refuse the run with
+        # UnsafeFilenameError before anything is touched (whatever else is on the command line)
+        unsafe_args = [a for a in case["args"] if not documented_safe(os.path.join(root, a))]
+        faults = case.get("faults") or {}
+        bx_fired = {}       # BaseException faults of the rewriter hook that fired: name -> kind
+        for n, k in (faults.get("rw") or {}).items():
+            if k in ("SystemExit", "KeyboardInterrupt") and case["tree"].get(n, [""])[0] == "file" \
+                    and case["tree"][n][1] in obs["rewrites"]:
+                bx_fired[n] = k
+        kbd = "KeyboardInterrupt" in bx_fired.values()
+        refused = False
         if obs.get("crash"):
-            # an exception other than SystemExit left the tool: a failure that is not collected and reported
-            F("an exception escaped the tool", crash=obs["crash"])
+            if obs["crash"].startswith("UnsafeFilenameError") and unsafe_args:
+                refused = True
+            elif obs["crash"].startswith("KeyboardInterrupt") and kbd:
+                pass        # Ctrl-C ends the run: only the safety clauses apply
+            else:
+                # an exception other than SystemExit left the tool: a failure that is not collected and reported
+                F("an exception escaped the tool", crash=obs["crash"])
+        if refused and obs["rc"] == 0:
+            F("run refused (unsafe file name) but exit status 0")
 
         # ---- who may be written ---------------------------------------------
         auth = collections.defaultdict(list)
@@ -560,7 +706,14 @@ class C09(Prop):
                 if before[n][0] == "file" and after[n][0] == "file" and before[n][2] != after[n][2]:
                     F("file re-created (inode changed) although the configured action list has no REPLACE", name=n)
 
+        for n in obs["names"]:
+            b, a = before[n], after[n]
+            if b[:2] == a[:2] and len(b) > 3 and len(a) > 3 and b[3] != a[3] and n not in auth:
+                F("permission bits of a path that no argument designates changed", name=n, before=oct(b[3]), after=oct(a[3]))
+
         # ---- failures are reported and do not stop the other files ------------
+        if refused or kbd:
+            return fails[:6]
         failures = []
         for a in case["args"]:
             if not facts[a]["isfile"] and not facts[a]["isdir"]:
@@ -569,11 +722,20 @@ class C09(Prop):
         # a rewriter failure is *observed* (the rewriter was called on a text it fails on); the files holding that
         # text (a symlink and its target share it) are the candidates, one of which must be named
         shared = []
+        bx_texts = set(case["tree"][n][1] for n in bx_fired)
         for c in sorted(rew):
-            if ref.get(c, "") is None:
+            if ref.get(c, "") is None and c not in bx_texts:
                 cands = [a for a in E if content_of(a) == c]
                 if len(cands) == 1:
                     failures.append((cands[0], "rewriter failure"))
+                elif cands:
+                    shared.append(cands)
+        # a write failure is observed (atomic_write_file raised); it concerns the argument(s) written through
+        for w, errname in obs.get("writes", []):
+            if errname is not None:
+                cands = [a for a in E if a == w or facts[a]["real"] == w]
+                if len(cands) == 1:
+                    failures.append((cands[0], "write failure"))
                 elif cands:
                     shared.append(cands)
         sym_exit = bool(obs["msg"]) and "appears to be a symlink" in obs["msg"]
@@ -599,7 +761,9 @@ class C09(Prop):
                     F("failure on a file is not reported by name", name=cands, why="rewriter failure", stderr=errtext[-300:])
             if generic and obs["rc"] == 0:
                 F("an error was printed but exit status 0", stderr=errtext[-300:])
-            if (failures or shared or generic) and (k0 is not None or "PRINT" in acts):
+            if bx_fired and obs["rc"] == 0:
+                F("failure on a file but exit status 0", name=sorted(bx_fired), why="SystemExit inside an action")
+            if (failures or shared or generic or bx_fired) and (k0 is not None or "PRINT" in acts):
                 passive = {"PRINT", "IFCHANGED", "DIFF", "EXECUTE:true", "EXECUTE:echo"}
                 simple = k0 is not None and set(pre) <= passive
                 kp = acts.index("PRINT") if "PRINT" in acts else None
@@ -607,8 +771,9 @@ class C09(Prop):
                 cnt = collections.Counter(E)
                 ccnt = collections.Counter(content_of(a) for a in E)
                 targets = set(facts[l]["real"] for l in link_args)
+                failing = set(f[0] for f in failures) | set(a for c in shared for a in c) | set(bx_fired)
                 for j in E:
-                    if facts[j]["islink"] or cnt[j] != 1 or j in targets:
+                    if facts[j]["islink"] or cnt[j] != 1 or j in targets or j in failing:
                         continue
                     c = content_of(j)
                     if c is None or ccnt[c] != 1:
@@ -616,13 +781,49 @@ class C09(Prop):
                     o = ref.get(c)
                     if o is None:
                         continue
-                    cause = "symlink-error-exit" if sym_exit else "other"
+                    cause = ("symlink-error-exit" if sym_exit else
+                             "systemexit-fault" if "SystemExit" in bx_fired.values() else "other")
                     if simple and o != c and after[j][:2] != ["file", o]:
                         F("file not processed after a failure on another file", name=j, cause=cause,
                           failed=[f[0] for f in failures], expected="replaced by the rewriter's output")
                     elif printable and (o != c or "IFCHANGED" not in acts[:kp]) and o and o not in obs["out"]:
                         F("file not processed after a failure on another file", name=j, cause=cause,
                           failed=[f[0] for f in failures], expected="printed")
+            # differential form of the same sentence: every other file ends up exactly as in a run of the same
+            # command line without the failing file(s)
+            FA = set(f[0] for f in failures) | set(a for c in shared for a in c) | set(bx_fired)
+            if "UnicodeDecodeError" in errtext:
+                FA |= set(a for a in E if (content_of(a) or "").encode("utf-8", "surrogateescape") !=
+                          (content_of(a) or "").encode("utf-8", "replace"))
+            if "EOFError" in errtext:
+                FA = set()
+            others = [j for j in E if j not in FA]
+            reals = set(facts[a]["real"] for a in FA if facts.get(a, {}).get("real"))
+            if (FA and others and "QUERY" not in acts and FA <= set(case["args"])
+                    and not any((facts[j]["real"] in reals) or (j in reals) for j in others)):
+                bcase = copy.deepcopy({k: v for k, v in case.items() if k not in ("faults", "_src")})
+                bcase["args"] = [a for a in case["args"] if a not in FA]
+                if bcase["args"]:
+                    bobs = self._run_plain(bcase)
+                    cause = ("symlink-error-exit" if sym_exit else
+                             "systemexit-fault" if "SystemExit" in bx_fired.values() else "other")
+                    owned = FA | reals
+                    for n in sorted(set(obs["names"]) | set(bobs["after"])):
+                        if n in owned:
+                            continue
+                        x = after.get(n, ["absent"])[:2]
+                        y = bobs["after"].get(n, ["absent"])[:2]
+                        if x != y:
+                            F("file not processed after a failure on another file", name=n, cause=cause,
+                              failed=sorted(FA), expected="the same result as in a run without the failing file",
+                              got=[str(t)[:80] for t in x], want=[str(t)[:80] for t in y])
+                    ccnt = collections.Counter(content_of(a) for a in E)
+                    for j in others:
+                        c = content_of(j)
+                        o = ref.get(c) if c is not None else None
+                        if o and ccnt[c] == 1 and obs["out"].count(o) != bobs["out"].count(o):
+                            F("file not processed after a failure on another file", name=j, cause=cause,
+                              failed=sorted(FA), expected="printed as often as in a run without the failing file")
         return fails[:6]
 
     # -- model -----------------------------------------------------------------
@@ -649,6 +850,11 @@ class C09(Prop):
         return names, pid, cid, ltarget
 
     def model_requests(self, case, obs):
+        if "probe" in obs:
+            return [dict(op="safeName", name=n) for n in case["names"]]
+        for k in ((case.get("faults") or {}).get("rw") or {}).values():
+            if k in ("SystemExit", "KeyboardInterrupt"):
+                return []       # BaseException out of the rewriter hook: oracle only (not modelled)
         tree = case["tree"]
         names, pid, cid, ltarget = self._numbering(case, obs)
         fs = []
@@ -686,13 +892,24 @@ class C09(Prop):
                 t.encode("utf-8")
             except UnicodeEncodeError:
                 unreadable.append(i)
-        return [dict(op="main", tty=False, keep=bool(self._keep), opts=opts, fs=fs, rw=rw, unreadable=unreadable, args=[pid[a] for a in case["args"]],
+        root = obs["root"]
+        unwritable = set()
+        for n in names:
+            if len(os.path.basename(n).encode("utf-8", "surrogateescape")) + len(".tmp.%d" % obs["pid"]) > 255:
+                unwritable.add(pid[n])
+        for n in ((case.get("faults") or {}).get("write") or {}):
+            unwritable.add(pid[n])
+        return [dict(op="main", tty=False, keep=bool(self._keep), opts=opts, fs=fs, rw=rw, unreadable=unreadable,
+                     names=[[pid[n], os.path.join(root, n)] for n in names], unwritable=sorted(unwritable), args=[pid[a] for a in case["args"]],
                      answers=list(case.get("answers", [])), paths=[pid[n] for n in names])]
 
     ERRCLASS = {"bad filename": "bad", "EOFError": "eof", "FileNotFoundError": "io", "IsADirectoryError": "io",
                 "OSError": "io", "PermissionError": "io", "NotADirectoryError": "io", "UnicodeDecodeError": "io"}
 
     def compare(self, case, obs, resps):
+        if "probe" in obs:
+            bad = [(n, o, r.get("ok")) for n, o, r in zip(case["names"], obs["probe"], resps) if o != r.get("ok")]
+            return ("safeName: model and Filename disagree on %r" % (bad[:5],)) if bad else None
         r = resps[0]
         names, pid, cid, ltarget = self._numbering(case, obs)
         name_of = {v: k for k, v in pid.items()}
@@ -707,6 +924,9 @@ class C09(Prop):
             else:
                 if not obs["crash"]:
                     diffs.append("model: exception while parsing options; impl rc=%r msg=%r" % (obs["rc"], obs["msg"]))
+        elif r.get("refused"):
+            if not (obs["crash"] or "").startswith("UnsafeFilenameError"):
+                diffs.append("model: run refused (unsafe argument name); impl rc=%r crash=%r" % (obs["rc"], obs["crash"]))
         elif obs["crash"]:
             diffs.append("impl crashed: %s" % obs["crash"])
         # file system
@@ -769,6 +989,8 @@ class C09(Prop):
 
     # -- bookkeeping -----------------------------------------------------------
     def nontrivial_key(self, case, obs):
+        if "probe" in obs:
+            return "safename-probe"
         if obs["expanded"] or obs["rc"] != 0:
             c = dict(case)
             c.pop("_src", None)
@@ -776,6 +998,8 @@ class C09(Prop):
         return None
 
     def sample_repr(self, case, obs):
+        if "probe" in obs:
+            return dict(probe="safename", names=len(case["names"]), accepted=sum(1 for x in obs["probe"] if x is True))
         return dict(tool=case["tool"], argv=argv_of(case), answers=case.get("answers"),
                     tree={k: (v[0] if v[0] != "link" else v) for k, v in case["tree"].items()},
                     rc=obs["rc"], changed=[n for n in obs["names"] if obs["before"][n][:2] != obs["after"][n][:2]])
@@ -784,7 +1008,22 @@ class C09(Prop):
         def inc(k):
             acc[k] = acc.get(k, 0) + 1
         inc("src_" + case.get("_src", "?"))
+        if "probe" in obs:
+            inc("safename_probe_names_%d" % len(case["names"]))
+            return
         inc("tool_" + case["tool"])
+        root = obs["root"]
+        if any(not documented_safe(os.path.join(root, a)) for a in case["args"]):
+            inc("unsafe_argument_name")
+        if any(not documented_safe(os.path.join(root, n)) for n in case["tree"] if n not in case["args"]):
+            inc("unsafe_name_in_tree")
+        if (obs.get("crash") or "").startswith("UnsafeFilenameError"):
+            inc("refused_UnsafeFilenameError")
+        for w in obs.get("writes", []):
+            if w[1]:
+                inc("write_failure_" + w[1].split(":")[-1])
+        for k in ((case.get("faults") or {}).get("rw") or {}).values():
+            inc("rewriter_fault_" + k)
         acts, pol, rej = configured(case)
         inc("policy_" + pol)
         inc("rc_%s" % (obs["rc"] if obs["rc"] in (0, 1, 2) else "other"))
@@ -816,9 +1055,14 @@ class C09(Prop):
     @staticmethod
     def _fam_d12(case, fl):
         acts, pol, rej = configured(case)
-        return (fl.get("what") == "file not processed after a failure on another file"
-                and fl.get("cause") == "symlink-error-exit" and pol == "error"
-                and any(v[0] == "link" for v in case["tree"].values()))
+        if fl.get("what") != "file not processed after a failure on another file":
+            return False
+        if fl.get("cause") == "symlink-error-exit":
+            return pol == "error" and any(v[0] == "link" for v in case["tree"].values())
+        if fl.get("cause") == "systemexit-fault":
+            # the same root cause (process_actions isolates `Exception` only), reached by the fault hook
+            return "SystemExit" in ((case.get("faults") or {}).get("rw") or {}).values()
+        return False
 
     families = {}
 
